@@ -73,7 +73,10 @@ let model_of (f : string list) : string =
   | "E" :: ops ->
     let st = ref enum_new in
     String.concat " " (List.map (fun tok ->
-        let o = parse_enum_op tok in
+        (* K (continue on a clone), G (edit of a removed value), O (edit of the clone's source) do
+           not concern the enum: no-ops for the model, accepted *)
+        let o = if tok = "K" || (String.length tok > 1 && (tok.[0] = 'G' || tok.[0] = 'O') && tok.[1] = ':')
+          then ESetMin (e_min !st) else parse_enum_op tok in
         let ok = enum_ok !st o in
         st := enum_step !st o;
         Printf.sprintf "%d:%s:%s" (if ok then 1 else 0) (zs (enum_size !st)) (zs (e_max !st))) ops)
@@ -86,6 +89,8 @@ let () =
   let per = Hashtbl.create 8 in
   (try while true do
       let line = input_line ic in
+      if String.length line >= 4 && String.sub line 0 4 = "END " then begin
+        Printf.printf "CASES-END %s\n" (String.sub line 4 (String.length line - 4)); raise End_of_file end;
       incr n;
       let i = try Str.search_forward (Str.regexp_string " ; ") line 0 with Not_found -> failwith ("no separator: " ^ line) in
       let inp = String.sub line 0 i and obs = String.sub line (i + 3) (String.length line - i - 3) in
